@@ -176,6 +176,13 @@ var c18Sections = map[string][]c18Variant{
 		{"plugins:\n  enabled: true\n  chain:\n    - name: size_limit\n      config:\n        max_request_body: 0.5\n", true, "size_limit fractional request limit below 1", true},
 		{"plugins:\n  enabled: true\n  chain:\n    - name: size_limit\n      config:\n        max_request_body: 1000\n        max_response_body: 0.999\n", true, "size_limit fractional response limit below 1", true},
 		{"plugins:\n  enabled: true\n  chain:\n    - name: gzip\n      config:\n        level: 5.7\n        min_size: 0.2\n        content_types: [\"text/\"]\n", true, "gzip fractional numbers", true},
+		// the document loads (plugin options are checked when the chain is built) but startup has to refuse it
+		{"plugins:\n  enabled: true\n  chain:\n    - name: gzip\n      config:\n        level: 12.0\n        min_size: 16\n        content_types: [\"text/\"]\n", true, "startup refuses: gzip level 12.0", false},
+		{"plugins:\n  enabled: true\n  chain:\n    - name: gzip\n      config:\n        level: 1e1\n        min_size: 16\n        content_types: [\"text/\"]\n", true, "startup refuses: gzip level 1e1", false},
+		{"plugins:\n  enabled: true\n  chain:\n    - name: gzip\n      config:\n        level: -3.0\n        min_size: 16\n        content_types: [\"text/\"]\n", true, "startup refuses: gzip level -3.0", false},
+		{"plugins:\n  enabled: true\n  chain:\n    - name: gzip\n      config:\n        level: 10\n        min_size: 16\n        content_types: [\"text/\"]\n", true, "startup refuses: gzip level 10", false},
+		{"plugins:\n  enabled: true\n  chain:\n    - name: logging\n    - name: size_limit\n      config:\n        max_request_body: -1.0\n", true, "startup refuses: size_limit negative float limit", false},
+		{"plugins:\n  enabled: true\n  chain:\n    - name: logging\n    - name: custom-auth\n      config:\n        apiKey: \"\"\n    - name: headers\n", true, "startup refuses: custom-auth with an empty key between two valid plugins", false},
 	},
 }
 
@@ -361,7 +368,16 @@ func init() {
 				// an accepted configuration builds a balancer and a handler (no listener involved yet)
 				if d.Kind == "single" || d.Kind == "random" {
 					cfg.Logging.Level = "fatal"
-					mayRefuse := c18Sections["plugins"][d.Pick["plugins"]].MayRefuse
+					pv := c18Sections["plugins"][d.Pick["plugins"]]
+					mayRefuse := pv.MayRefuse
+					if strings.HasPrefix(pv.D, "startup refuses: ") {
+						if err := c18StartProbe(cfg, false); err == nil || strings.Contains(err.Error(), "panic") {
+							o.Viol("C18|invalid-plugin-option-started|"+strings.TrimPrefix(pv.D, "startup refuses: "), fmt.Sprintf("a plugin option outside its documented range (%s) does not stop the start-up: %v", pv.D, err), map[string]any{"document": text})
+							return
+						}
+						o.Obs("refused_at_startup_with_error", 1)
+						return
+					}
 					if err := c18StartProbe(cfg, true); err != nil {
 						if mayRefuse && !strings.Contains(err.Error(), "NOTWORKING") && !strings.Contains(err.Error(), "panic") {
 							o.Obs("refused_at_startup_with_error", 1)
@@ -529,7 +545,7 @@ func c18BinOnce(e *vh.Env, c c18Bin, o *vh.Out) bool {
 				vs := c18Sections[s]
 				for {
 					i := r.Intn(len(vs))
-					if vs[i].OK && !vs[i].MayRefuse {
+					if vs[i].OK && !vs[i].MayRefuse && !strings.HasPrefix(vs[i].D, "startup refuses: ") {
 						m[s] = i
 						break
 					}
